@@ -47,7 +47,7 @@ CHECKS = {
    text="Every (stage x failure mode x request class x hypothesis x strain measure) combination is enumerated for the mock tier; after a call returning -1 the caller's s1 thermodynamic forces, internal state variables and energies must be bitwise unchanged.",
    note="Trusted: the mock implements the interface the templates require; generated-tier behaviours are produced by the freshly built mfront.",
    design="§3 C40"),
- "C50": dict(ready=False, level="fault_enumeration", engine="preload",
+ "C50": dict(ready=True, level="fault_enumeration", engine="preload",
    technique="fault injection at the behaviour seam of the real mtest binary (plan keyed by behaviour-call index), refinement oracle against a direct fault-free run over the accepted steps",
    text="Failures, exceptions and time-step reductions are injected at chosen behaviour calls (incl. nested); the result file must agree, at every accepted time, with a fault-free run performed directly with the accepted steps.",
    note="Comparison within 100x the convergence criteria in general, bitwise on dyadic time grids (strict mode).",
